@@ -49,7 +49,12 @@ type Log struct {
 	mu     sync.Mutex
 	stamp  int64
 	events []Event
+	muted  bool
 }
+
+// SetMuted stops (or resumes) recording events; stamps keep advancing.  Used around measurements
+// that must not see the harness' own allocations.
+func (l *Log) SetMuted(m bool) { l.mu.Lock(); l.muted = m; l.mu.Unlock() }
 
 func NewLog() *Log { return &Log{} }
 
@@ -58,6 +63,9 @@ func (l *Log) Add(kind EventKind, conn, n int, err error, info string) int64 {
 	l.mu.Lock()
 	defer l.mu.Unlock()
 	l.stamp++
+	if l.muted {
+		return l.stamp
+	}
 	e := Event{Stamp: l.stamp, Kind: kind, Conn: conn, N: n, Info: info}
 	if err != nil {
 		e.Err = err.Error()
